@@ -1412,3 +1412,57 @@ def integer_arithmetic(ctx, rule, modules, allowed=()):
         for b in [x for x in ast.walk(m.tree) if isinstance(x, ast.AugAssign) and isinstance(x.op, ast.Div)]:
             R.bad(rule, f'{p.qual_of(b)} | {norm(b)[:60]}', 'true division in place', f'{m.rel}:{b.lineno}')
     R.check(n >= 1, rule, f'{", ".join(modules)} | arithmetic', 'no true division', 'no module analysed')
+
+
+# ---------------------------------------------------------------------------------------------------------------------
+SETTLE_EXEMPT = {
+    'bumble.l2cap.LeCreditBasedChannel.on_connection_response': 'reached only through ChannelManager.le_coc_requests, and connect() removes that entry in a finally when its waiter gives up (C16.pending-slots): a response for an abandoned request is dropped by the manager',
+}
+
+
+def settle_guard(ctx, rule, classes, floor=1):
+    """A future kept in an instance attribute can be cancelled by its waiter (timeout, task cancellation) while the object
+    still refers to it.  `set_result` / `set_exception` on it then raises InvalidStateError in the middle of a teardown.
+    Each settle call is under a `not <future>.done()` test, unless every coroutine that waits on the attribute clears
+    it in a `finally` (then a stale reference cannot exist)."""
+    R, p = ctx.r, ctx.p
+    from .paths import flat_guards
+    n = 0
+    for cq in classes:
+        ci = p.cls(cq)
+        if ci is None:
+            R.bad(rule, cq, 'anchor missing')
+            continue
+        # attributes whose waiters always clear them in a finally
+        scoped = set()
+        waiters = {}
+        for fn in ci.methods.values():
+            for aw in [x for x in walk_local(fn) if isinstance(x, ast.Await)]:
+                for a in [x for x in ast.walk(aw) if isinstance(x, ast.Attribute) and dotted(x.value) == 'self']:
+                    waiters.setdefault(a.attr, []).append((fn, aw))
+        for attr, ws in waiters.items():
+            ok = True
+            for fn, aw in ws:
+                t, prev, cleared = getattr(aw, '_parent', None), aw, False
+                while t is not None and t is not fn:
+                    if isinstance(t, ast.Try) and any(prev is s_ or any(prev is x for x in ast.walk(s_)) for s_ in t.body):
+                        cleared = cleared or any(isinstance(s_, ast.Assign) and any(dotted(tt) == f'self.{attr}' for tt in s_.targets) for s_ in t.finalbody)
+                    prev, t = t, getattr(t, '_parent', None)
+                ok = ok and cleared
+            if ok:
+                scoped.add(attr)
+        for fn in ci.methods.values():
+            for c in [x for x in walk_local(fn) if isinstance(x, ast.Call) and isinstance(x.func, ast.Attribute) and x.func.attr in ('set_result', 'set_exception') and isinstance(x.func.value, ast.Attribute) and dotted(x.func.value.value) == 'self']:
+                attr = c.func.value.attr
+                n += 1
+                if attr in scoped:
+                    R.ok(rule, f'{cq}.{fn.name} | self.{attr}.{c.func.attr}', 'every waiter clears the attribute in a finally: no stale reference', p.loc(c), trivial=True)
+                    continue
+                if f'{cq}.{fn.name}' in SETTLE_EXEMPT:
+                    R.ok(rule, f'{cq}.{fn.name} | self.{attr}.{c.func.attr}', 'named exception: ' + SETTLE_EXEMPT[f'{cq}.{fn.name}'], p.loc(c), trivial=True)
+                    continue
+                fresh = any(isinstance(s_, ast.Assign) and any(dotted(t) == f'self.{attr}' for t in s_.targets) and isinstance(s_.value, ast.Call) and call_attr(s_.value) == 'create_future' and s_.lineno < c.lineno for s_ in walk_local(fn))
+                guarded = any((not pol) and norm(t) == f'self.{attr}.done()' for t, pol in flat_guards(c, stop=fn))
+                R.check(guarded or fresh, rule, f'{cq}.{fn.name} | self.{attr}.{c.func.attr}', 'under `not ...done()`',
+                        f'`self.{attr}.{c.func.attr}(...)` is not guarded by `not self.{attr}.done()`: a waiter that gave up (timeout) has cancelled the future but the object still holds it, so this raises InvalidStateError in the middle of the teardown and what follows is skipped', p.loc(c))
+    R.check(n >= floor, rule, f'{", ".join(classes)} | settle calls', f'{n} set_result / set_exception calls on attribute futures examined', f'only {n} found')
